@@ -527,6 +527,7 @@ def build(repo, contracts_dir, out_dir, vacuity=False, only=None):
             gl += g
     W = Woven()
     log = []
+    lemma_probes = []
     W.emit(open(os.path.join(contracts_dir, "header.rs")).read())
     W.emit("\nverus! {\n\n")
     W.emit("// ===== prelude (hand-written shims and axioms: trusted base) =====\n")
@@ -570,7 +571,23 @@ def build(repo, contracts_dir, out_dir, vacuity=False, only=None):
             W.emit("".join(out) + "\n\n")
             log.append({"rule": "R-lib", "what": "PPGEvaluatorError: thiserror attributes dropped"})
     W.emit("\n// ===== spec vocabulary (contracts/spec.rs) =====\n")
-    W.emit(open(os.path.join(contracts_dir, "spec.rs")).read())
+    spec_text = open(os.path.join(contracts_dir, "spec.rs")).read()
+    if vacuity:
+        # probe every lemma: `assert(false)` as first statement of each `proof fn` body must fail
+        out_lines = []
+        pending = None
+        for line in spec_text.split("\n"):
+            mm = re.match(r"^\s*(?:pub\s+)?(?:broadcast\s+)?proof fn (\w+)", line)
+            if mm:
+                pending = mm.group(1)
+            out_lines.append(line)
+            if pending and line.strip() == "{":
+                start_line = W.line + len(out_lines)
+                out_lines.append("    assert(false); // VACUITY-PROBE lemma %s" % pending)
+                lemma_probes.append((pending, start_line))
+                pending = None
+        spec_text = "\n".join(out_lines)
+    W.emit(spec_text)
     W.emit("\n")
 
     # --- which fns
@@ -707,6 +724,9 @@ def build(repo, contracts_dir, out_dir, vacuity=False, only=None):
     dup = set(i for i in ids if ids.count(i) > 1)
     if dup:
         raise ExtractError("duplicate obligation ids: %s" % sorted(dup))
+    for (nm, ln) in lemma_probes:
+        W.obligations.append({"fn": "lemma " + nm, "kind": "vacuity", "name": "lemma", "tags": [], "text": "",
+                              "id": "lemma %s/vacuity" % nm, "line_start": ln, "line_end": ln})
     meta = {"functions": fn_records, "obligations": W.obligations,
             "source_sha256": {"engine.rs": hashlib.sha256(S.engine.encode()).hexdigest(),
                               "lib.rs": hashlib.sha256(S.lib.encode()).hexdigest()},
